@@ -98,11 +98,15 @@ def check_pair(ctx, adef, bdef, tag):
     ctx.case((enc.tree(ta), enc.tree(tb)), nontrivial,
              sample={"A": repr(adef), "B": repr(bdef), "answers": dict(zip(NAMES, [g[1] for g in got]))})
     if trace_problems and not problems:
-        # same answers, different run: the mirror model no longer describes the code's loop (C06/hk_trace)
-        ctx.violation("C06/hk_trace: the union-find run of DFA.__eq__ differs from the mirror model: " + "; ".join(trace_problems),
-                      {"kind": "pair", "A": repr(adef), "B": repr(bdef), "problems": trace_problems, "tag": tag},
-                      confirmed=False)
-    elif problems:
+        # same answers, different run: the code's loop is no longer the one the mirror model describes (a different
+        # union-find, agenda or expansion order). The property fixes the boolean only - decided above against the
+        # specification model, which is proved equal to language equality - so this is a structural difference,
+        # counted and shown in the evidence, not a violation.
+        ctx.structural += 1
+        ctx.tally("hk_trace_differs_from_mirror_model")
+        if len(ctx.notes) < 3:
+            ctx.notes.append("hk_trace differs: " + "; ".join(trace_problems)[:300])
+    if problems:
         problems += trace_problems
         ctx.violation("DFA comparison disagrees with the language statement: " + "; ".join(problems),
                       {"kind": "pair", "A": repr(adef), "B": repr(bdef), "problems": problems,
